@@ -568,6 +568,10 @@ fn parse_header_request(buf: &[u8]) -> Option<HeaderRequest> {
     Some(msg)
 }
 
+#[cfg(eigerco_lumina_verif)]
+#[path = "header_ex_verif_hooks.rs"]
+pub mod verif_hooks;
+
 #[cfg(test)]
 mod tests {
     use super::*;
